@@ -31,7 +31,7 @@ def asan_policy(pid):
 def simple(pid, binname, sub, seed, tier, n, *, features=None, engine="native", case_timeout=60, offset=0, crash_policy=None, extra=None, jobs=None, shard=None, env=None, stats=None):
     d = build(features)
     argv = [os.path.join(d, binname), sub, "--seed", str(seed), "--tier", tier] + list(extra or [])
-    cs = vlib.fan_out(argv, n, engine=engine, case_timeout=case_timeout, crash_policy=crash_policy, jobs=jobs, shard=shard, env=env, stats=stats)
+    cs = vlib.fan_out(argv, n, engine=engine, case_timeout=case_timeout, crash_policy=crash_policy, jobs=jobs, shard=shard, env=env, stats=stats, confirm_timing=True)
     for c in cs:
         c.idx += offset
     return cs
